@@ -346,3 +346,86 @@ func (c *Ctx) forallShape(fn *ssa.Function) (forallSpec, bool) {
 	}
 	return forallSpec{}, false
 }
+
+// reflNoPanic: reflect.Value methods that accept every Value.
+var reflNoPanic = map[string]bool{
+	"(reflect.Value).Kind": true, "(reflect.Value).IsValid": true, "(reflect.Value).CanInterface": true,
+	"(reflect.Value).CanAddr": true, "(reflect.Value).CanSet": true, "(reflect.Value).String": true,
+	"(reflect.Value).Comparable": true,
+}
+
+// ruleReflComplete: every reflect.Value method the package calls is either in
+// the table of panicking methods (and then a census site) or known never to
+// panic; a method the table does not know (Bytes, Int, Set..., Slice, ...) is
+// reported, so that a new reflective call cannot go unexamined.
+func (c *Ctx) ruleReflComplete(scope []*ssa.Function) {
+	if scope == nil {
+		scope = c.p.Funcs
+	}
+	n := 0
+	for _, fn := range scope {
+		ord := newOrdinal()
+		for _, b := range fn.Blocks {
+			for _, in := range b.Instrs {
+				cc := callCommon(in)
+				if cc == nil {
+					continue
+				}
+				cal := cc.StaticCallee()
+				if cal == nil || !strings.HasPrefix(cal.String(), "(reflect.Value).") {
+					continue
+				}
+				n++
+				name := cal.String()
+				if _, ok := reflTable[name]; ok || reflNoPanic[name] {
+					continue
+				}
+				if name == "(reflect.Value).Equal" {
+					c.reflEqualSite(fn, in, cc, ord)
+					continue
+				}
+				c.rep.bad("R-REFL", relName(fn), ord.next("unclassified "+strings.TrimPrefix(name, "(reflect.Value).")), c.p.instrPos(in),
+					"reflect method "+name+" is not in the checker's table of panic conditions: it may panic for some kinds of value (e.g. Bytes on an unaddressable array, Int on a non-integer)")
+			}
+		}
+	}
+	c.rep.Extra["reflect_value_calls"] = n
+}
+
+// reflEqualSite: Value.Equal panics for non-comparable kinds; the package
+// calls it only after isKnownPrimitive() accepted both operands' Interface()
+// values (a type switch over the basic types).
+func (c *Ctx) reflEqualSite(fn *ssa.Function, in ssa.Instruction, cc *ssa.CallCommon, ord *ordinal) {
+	fa := c.eng.analyze(fn, nil)
+	construct := ord.next("Value.Equal")
+	okAll := fa.allHold(in, func(s *State) bool {
+		for _, operand := range cc.Args[:2] {
+			found := false
+			for _, pc := range c.findCalls(fn, "isKnownPrimitive") {
+				if _, did := s.cep[pc]; !did {
+					continue
+				}
+				el := singleVariadicElem(pc.Call.Args[0])
+				ic, ok := el.(*ssa.Call)
+				if !ok {
+					continue
+				}
+				if cal := ic.Call.StaticCallee(); cal == nil || cal.String() != "(reflect.Value).Interface" || ic.Call.Args[0] != operand {
+					continue
+				}
+				if v, known := fa.knownTerm(s, aTR, fa.term(s, pc)); known && v {
+					found = true
+				}
+			}
+			if !found {
+				return false
+			}
+		}
+		return true
+	})
+	if okAll {
+		c.rep.ok("R-REFL", relName(fn), construct, c.p.instrPos(in), "both operands were accepted by isKnownPrimitive (basic, comparable types) on every path")
+	} else {
+		c.rep.bad("R-REFL", relName(fn), construct, c.p.instrPos(in), "Value.Equal is reachable with an operand not known to be a basic (comparable) value: it panics for slices, maps and funcs")
+	}
+}
